@@ -132,6 +132,7 @@ def run(an: Analysis, rep):
     enc, cdec = find_json_functions(an)
     rep.run(c07.r071, an, shj, enc, cdec, defs)
     rep.run(c07.r073, an, shj, enc)
+    rep.run(c07.r07a, an, shj, enc)
     from .common import rebuild_rule
     rep.run(rebuild_rule, an, shj, "R07.8", ["from_json"])
 
